@@ -90,6 +90,13 @@ Theorem c14_no_byte_lost : forall (policy : full_policy), policy = Blocks -> for
 Proof. exact (no_byte_lost ConstsModulator.bitstream_queue_capacity). Qed.
 Print Assumptions c14_no_byte_lost.
 
+(** the source text of queue::put, as read by the translator on this run, tests for the default (maximum) timeout
+    and then waits without a deadline; bitstream_queue_t has capacity 96 *)
+Theorem c14_put_blocks_in_source :
+  ConstsModulator.put_default_waits_without_deadline = true /\ ConstsModulator.bitstream_queue_capacity = 96%nat.
+Proof. exact put_policy_in_source. Qed.
+Print Assumptions c14_put_blocks_in_source.
+
 (** no deadlock, and every step of a runnable thread reduces the remaining work (so any schedule that keeps
     running a runnable thread drains within 2 |bytes| steps) *)
 Theorem c14_queue_progress : forall (policy : full_policy) (st : qstate), (length (snd (fst st)) <= ConstsModulator.bitstream_queue_capacity)%nat ->
